@@ -3,9 +3,9 @@
 package sm4
 
 import (
-	"encoding/binary"
 	"bytes"
 	"crypto/cipher"
+	"encoding/binary"
 	"fmt"
 	"github.com/klauspost/cpuid/v2"
 	"testing"
@@ -282,6 +282,55 @@ func TestVerifC05(t *testing.T) {
 					}
 				}
 				r.EvalN("public-api:"+pn, 4)
+				// a sequence of RELATED blocks through the same object: the same block twice, blocks that share the first
+				// half, the second half, all but one byte, all but one bit, and the previous output fed back in - state
+				// kept from one call (a memo of the last block, a cached half) must not show in the next
+				{
+					base := rng.Bytes(16)
+					seq := [][]byte{base, base}
+					v := append([]byte{}, base...)
+					copy(v[:8], rng.Bytes(8)) // shares the second half
+					seq = append(seq, v)
+					v = append([]byte{}, v...)
+					copy(v[8:], rng.Bytes(8)) // shares the first half with the one before
+					seq = append(seq, v)
+					v = append([]byte{}, v...)
+					v[rng.Intn(16)] ^= 0xff
+					seq = append(seq, v)
+					v = append([]byte{}, v...)
+					v[rng.Intn(16)] ^= 1 << uint(rng.Intn(8))
+					seq = append(seq, v, base)
+					out := make([]byte, 16)
+					want := make([]byte, 16)
+					for pass := 0; pass < 2; pass++ { // back to back first, then with other calls in between
+						for si, in := range seq {
+							refBlk.Encrypt(want, in)
+							blk.Encrypt(out, in)
+							if !bytes.Equal(out, want) {
+								r.Violation("Encrypt-wrong-in-a-sequence-of-related-blocks:"+pn, hk.D{"key": hk.Hex(key), "position": si, "block": hk.Hex(in), "previous_block": hk.Hex(seq[(si+len(seq)-1)%len(seq)]), "got": hk.Hex(out), "want": hk.Hex(want)})
+								break
+							}
+							if pass == 0 {
+								continue
+							}
+							// the output fed back in (encrypting it, and decrypting the INPUT, which was never an output)
+							fb := append([]byte{}, out...)
+							refBlk.Encrypt(want, fb)
+							blk.Encrypt(out, fb)
+							if !bytes.Equal(out, want) {
+								r.Violation("Encrypt-wrong-in-a-sequence-of-related-blocks:"+pn, hk.D{"key": hk.Hex(key), "position": si, "block": hk.Hex(fb), "relation": "previous output fed back", "got": hk.Hex(out), "want": hk.Hex(want)})
+								break
+							}
+							refBlk.Decrypt(want, in)
+							blk.Decrypt(out, in)
+							if !bytes.Equal(out, want) {
+								r.Violation("Decrypt-wrong-in-a-sequence-of-related-blocks:"+pn, hk.D{"key": hk.Hex(key), "position": si, "block": hk.Hex(in), "got": hk.Hex(out), "want": hk.Hex(want)})
+								break
+							}
+						}
+					}
+					r.EvalN("public-api:related-block-sequence:"+pn, 4*len(seq))
+				}
 			}
 			// many goroutines construct ciphers for DIFFERENT keys at the same time (and for the same key
 			// repeatedly): each must get the cipher of its own key
